@@ -157,6 +157,12 @@ JOBS = {
     "J1": (("src", "mul3"), {}),
     "J2": (("srcdef", "muldef", "probe_r"), {"value": 9.0}),
     "J3": (("src", "two_cfg", "ctxw"), {"factor": 5.0}),
+    # pipelines with context processors (rename / template / delete): the only code where two jobs in two worker threads of ONE
+    # process run the same framework classes at the same time
+    "K1": (("src", "probe_r", "ren_r_factor", "mul"), {}),
+    "K2": (("src", "ctxw", "tmpl_a", "del_a", "probe_factor"), {"r": 4.0}),
+    "K3": (("ren_r_factor",), {"r": 4.0}),       # minimal: one context processor each (line-level harness in the quick tier)
+    "K4": (("tmpl_a",), {"r": 7.0}),
     "FAIL": (("src", "fail"), {}),
     "BADCFG": (("src", "bogus"), {}),
     # fails inside Pipeline(...) itself (before any process() call): a sweep without variables
@@ -207,7 +213,13 @@ def run_harness(batch: Tuple[str, ...], nworkers: int, prefix: List[int], fine: 
     harness.quiet()
     in_memory.threading = types.SimpleNamespace(Lock=lambda: sched.CoopLock(lambda: _CUR[0]), Thread=real_threading.Thread)
     # fine mode: additionally a scheduling point at every source line of the master and worker modules
-    s = sched.Scheduler(([wk.__file__] if fine == "worker" else [qo.__file__, wk.__file__]) if fine else [], prefix, max_steps=400000, policy=policy)
+    if fine == "ctxproc":
+        import semantiva.context_processors.context_processors as cpm
+
+        files = [cpm.__file__]
+    else:
+        files = ([wk.__file__] if fine == "worker" else [qo.__file__, wk.__file__]) if fine else []
+    s = sched.Scheduler(files, prefix, max_steps=400000, policy=policy)
     _CUR[0] = s
     try:
         inner = in_memory.InMemorySemantivaTransport()
@@ -260,6 +272,63 @@ def run_harness(batch: Tuple[str, ...], nworkers: int, prefix: List[int], fine: 
             pass
 
 
+def run_pair_harness(batch: Tuple[str, ...], prefix: List[int]) -> sched.Execution:
+    """The worker side in isolation: each job's pipeline runs in its own thread of this process (what N workers do), scheduling points
+    at every source line of semantiva/context_processors/context_processors.py and payload_processors.py.  No queue, no master."""
+    import semantiva.context_processors.context_processors as cpm
+    import semantiva.pipeline.payload_processors as ppm
+    from semantiva.pipeline import Pipeline
+
+    harness.quiet()
+    pipes = [Pipeline(job_nodes(n)) for n in batch]  # built sequentially: construction is not the subject here
+    s = sched.Scheduler([cpm.__file__, ppm.__file__], prefix, max_steps=400000)
+    _CUR[0] = s
+    try:
+        results: Dict[int, Any] = {}
+
+        def work(i):
+            real = harness.run_pipeline(pipes[i], None, dict(JOBS[batch[i]][1]), None)
+            results[i] = (real.status, real.data, dict(real.ctx), real.error)
+
+        for i in range(len(batch)):
+            s.spawn(i, lambda i=i: work(i))
+        x = s.run()
+        x.obs = {"results": {i: results.get(i) for i in range(len(batch))}, "errors": {k: repr(v) for k, v in x.errors.items()},
+                 "blocked_threads": [t for t, st in s.state.items() if st == "blocked"]}
+        return x
+    finally:
+        _CUR[0] = None
+        try:
+            s._kill_all()
+        except Exception:
+            pass
+
+
+def judge_pair_factory(batch: Tuple[str, ...]):
+    def judge(x: sched.Execution) -> Optional[Tuple[str, str]]:
+        o = x.obs
+        if o["errors"] or o["blocked_threads"]:
+            return ("thread-raised", f"a thread raised or blocked: {o['errors']} {o['blocked_threads']}")
+        for i, name in enumerate(batch):
+            want = direct(name)
+            got = o["results"].get(i)
+            if got is None or not core.same(tuple(got), tuple(want)):
+                return ("concurrent-pipeline-differs-from-direct-run",
+                        f"job {i} ({name}) run in its own thread next to {[b for j, b in enumerate(batch) if j != i]}: {got}; run alone: {want} (cross-talk between concurrently running pipelines)")
+        return None
+
+    return judge
+
+
+def _explore_pair_root(arg):
+    batch, bound, root, cap = arg
+    for n in set(batch):
+        direct(n)
+    st, fails, capped = sched.explore(lambda p: run_pair_harness(batch, p), judge_pair_factory(batch), bound, roots=[root], max_executions=cap,
+                                      outcome_key=lambda x: json.dumps(x.obs["results"], default=repr, sort_keys=True))
+    return (batch, len(batch), "pair-lines"), st, fails, capped
+
+
 def judge_factory(batch: Tuple[str, ...]):
     def judge(x: sched.Execution) -> Optional[Tuple[str, str]]:
         o = x.obs
@@ -300,12 +369,24 @@ def outcome_key(x: sched.Execution) -> str:
     return json.dumps([[n, s_] for n, s_, v in x.obs["jobs"]] + [x.obs["leftover"]], default=repr)
 
 
+def run_any(batch, nworkers, prefix, fine, policy=None):
+    return run_pair_harness(batch, prefix) if fine == "pair" else run_harness(batch, nworkers, prefix, fine, policy)
+
+
+def judge_any(batch, fine):
+    return judge_pair_factory(batch) if fine == "pair" else judge_factory(batch)
+
+
+def outcome_any(x: sched.Execution) -> str:
+    return json.dumps(x.obs["results"], default=repr, sort_keys=True) if "results" in x.obs else outcome_key(x)
+
+
 def _explore_root(arg):
     batch, nworkers, bound, root, cap, fine = arg
     for n in set(batch):
         direct(n)
-    st, fails, capped = sched.explore(lambda p: run_harness(batch, nworkers, p, fine), judge_factory(batch), bound, roots=[root],
-                                      max_executions=cap, outcome_key=outcome_key)
+    st, fails, capped = sched.explore(lambda p: run_any(batch, nworkers, p, fine), judge_any(batch, fine), bound, roots=[root],
+                                      max_executions=cap, outcome_key=outcome_any)
     return (batch, nworkers, fine), st, fails, capped
 
 
@@ -319,12 +400,13 @@ def plans(tier: str):
         return [(("J1",), 1, 2, False), (("J1", "J2"), 1, 1, False), (("J1", "J2"), 2, 1, False), (("FAIL",), 1, 1, False),
                 (("J1", "FAIL"), 1, 1, False), (("BADCFG", "J1"), 1, 0, False), (("BADCTOR",), 1, 1, False), (("J1", "BADCTOR", "J2"), 1, 0, False),
                 (("BADCTOR", "J1"), 2, 0, False),
-                (("J1", "J2"), 1, 1, "worker"), (("FAIL", "J2"), 1, 1, "worker")]
+                (("J1", "J2"), 1, 1, "worker"), (("FAIL", "J2"), 1, 1, "worker"), (("K1", "K2"), 2, 1, "pair"), (("K3", "K3"), 2, 1, "pair"), (("K1", "K2"), 2, 0, False)]
     return [(("J1",), 1, 3, False), (("J1", "J2"), 1, 2, False), (("J1", "J2"), 2, 2, False), (("J1", "J2", "J3"), 2, 1, False), (("FAIL",), 1, 2, False),
             (("J1", "FAIL"), 1, 2, False), (("FAIL", "J2"), 2, 2, False), (("J1", "FAIL", "J3"), 2, 1, False), (("J1", "J2", "FAIL"), 2, 1, False),
             (("FAIL", "J1", "J2"), 1, 1, False), (("BADCFG", "J1"), 2, 1, False), (("J1", "J1"), 2, 2, False),
             (("BADCTOR",), 1, 2, False), (("J1", "BADCTOR", "J2"), 1, 1, False), (("BADCTOR", "J1"), 2, 1, False), (("J1", "BADCTOR"), 2, 1, "worker"),
-            (("J1",), 1, 2, True), (("J1", "J2"), 1, 1, True), (("J1", "J2"), 2, 1, "worker"), (("FAIL", "J2"), 2, 1, "worker"), (("J1", "J2"), 2, 1, True)]
+            (("J1",), 1, 2, True), (("J1", "J2"), 1, 1, True), (("J1", "J2"), 2, 1, "worker"), (("FAIL", "J2"), 2, 1, "worker"), (("J1", "J2"), 2, 1, True),
+            (("K3", "K4"), 2, 1, "ctxproc"), (("K1", "K2"), 2, 2, "pair"), (("K1", "K1", "K2"), 3, 1, "pair"), (("K3", "K4"), 2, 3, "pair"), (("K2", "K1"), 2, 1, False)]
 
 
 def _rr_worker(chunk):
@@ -359,13 +441,13 @@ def check(tier: str, seed: int) -> Result:
     jobs = []
     for batch, nworkers, bound, fine in plans(tier):
         key = f"{'+'.join(batch)}/w{nworkers}{('/lines-' + str(fine)) if fine else ''}"
-        x0 = run_harness(batch, nworkers, [], fine)
-        x1 = run_harness(batch, nworkers, [], fine)
+        x0 = run_any(batch, nworkers, [], fine)
+        x1 = run_any(batch, nworkers, [], fine)
         if x0.trace != x1.trace or x0.obs != x1.obs:
             raise sched.ReplayDivergence(f"{key}: default schedule not reproducible")
-        bad0 = judge_factory(batch)(x0)
+        bad0 = judge_any(batch, fine)(x0)
         per[key] = {"batch": list(batch), "workers": nworkers, "bound": bound, "fine": fine, "executions": 1, "transitions": len(x0.points),
-                    "points_default_run": len(x0.points), "by_preemptions": {0: 1}, "outcomes": {outcome_key(x0): 1},
+                    "points_default_run": len(x0.points), "by_preemptions": {0: 1}, "outcomes": {outcome_any(x0): 1},
                     "failures": [([], 0, bad0)] if bad0 else [], "capped": False}
         for i, p in enumerate(x0.points):
             if (1 if p.running_enabled else 0) <= bound:
@@ -392,8 +474,8 @@ def check(tier: str, seed: int) -> Result:
         tot_o += len(p["outcomes"])
         if p["failures"]:
             choices, npre, (sig, msg) = min(p["failures"], key=lambda f: (f[1], len(f[0])))
-            a = run_harness(tuple(p["batch"]), p["workers"], choices, p["fine"])
-            b = run_harness(tuple(p["batch"]), p["workers"], choices, p["fine"])
+            a = run_any(tuple(p["batch"]), p["workers"], choices, p["fine"])
+            b = run_any(tuple(p["batch"]), p["workers"], choices, p["fine"])
             if a.obs != b.obs or a.trace != b.trace:
                 raise sched.ReplayDivergence(f"{key}: failing schedule does not replay deterministically")
             viols.append(Violation(sig, f"{key}: {msg} [preemptions={npre}, schedule length {len(choices)}]",
@@ -437,6 +519,6 @@ def replay(case) -> List[Violation]:
                                     if len(j[0]) == case["njobs"] and j[1] == case["workers"] and j[2] == case["quantum"] and j[3] == case["rotation"]][:40]) if r[5]]
         return [Violation(r[5][0], r[5][1], case) for r in o[:1]]
     batch = tuple(case["batch"])
-    x = run_harness(batch, case["workers"], case["choices"], case.get("fine", False))
-    bad = judge_factory(batch)(x)
+    x = run_any(batch, case["workers"], case["choices"], case.get("fine", False))
+    bad = judge_any(batch, case.get("fine", False))(x)
     return [Violation(bad[0], bad[1], case)] if bad else []
